@@ -40,7 +40,199 @@ def cases(rng, tier):
             for _ in range({"quick": 1, "thorough": 8, "search": 4}[tier])]
     out += [{"t": "world", "jwt": "shared", "oidc": True, "seed": rng.getrandbits(40), "nmut": 30 if tier == "quick" else 100}
             for _ in range({"quick": 1, "thorough": 6, "search": 4}[tier])]
+    # the handler layer on its own (DefaultToken.info, TokenHandler.get_handler, get_session_info_by_token up to the session lookup)
+    out += [{"t": "handler", "shared": sh, "seed": rng.getrandbits(40), "n": 60 if tier == "quick" else 200}
+            for sh in (False, True) for _ in range({"quick": 1, "thorough": 6, "search": 3}[tier])]
     return out
+
+
+HNAMES = ["authorization_code", "access_token", "refresh_token"]
+
+
+def _plaintexts(rng, n, alts):
+    """structured plaintexts: (declared length, value) pairs; mostly well-formed with one defect"""
+    import string
+    AL = string.ascii_letters + string.digits + ":;."
+    def word(k):
+        return "".join(rng.choice(AL) for _ in range(k))
+    tags = HNAMES + [alts[k] for k in HNAMES] + ["id_token", "I", "", "X", "access_token ", "Access_token", "T" * 2, "a"]
+    out = []
+    for _ in range(n):
+        fields = [word(rng.choice([0, 1, 8, 32])), rng.choice(tags), word(rng.choice([0, 1, 5, 40])), str(rng.choice([0, 7, 1700000000, 99999999999]))]
+        kind = rng.choice(["plain", "plain", "plain", "fewer", "more", "len+", "len-", "badlen", "nocolon", "ws", "empty", "minus1"])
+        if kind == "minus1":
+            fields[3] = "-1"
+        if kind == "fewer":
+            fields = fields[: rng.randrange(0, 4)]
+        if kind == "more":
+            fields = fields + [word(3)] * rng.randrange(1, 3)
+        parts = [[len(f), f] for f in fields]
+        if kind in ("len+", "len-") and parts:
+            i = rng.randrange(len(parts))
+            parts[i][0] = max(0, parts[i][0] + (rng.choice([1, 2, 50]) if kind == "len+" else -rng.choice([1, 2])))
+        txt = "".join(f"{l}:{v}" for l, v in parts)
+        if kind == "badlen" and parts:
+            i = rng.randrange(len(parts))
+            parts2 = [(str(l) if j != i else rng.choice(["x", "", "1x", "q9"])) + ":" + v for j, (l, v) in enumerate(parts)]
+            txt = "".join(parts2)
+        if kind == "nocolon":
+            txt = txt.replace(":", "", 1) if rng.random() < 0.5 else txt + "9"
+        if kind == "ws":
+            txt = rng.choice([" ", "\n", "\t "]) + txt + rng.choice(["", " ", "\n"])
+        if kind == "empty":
+            txt = rng.choice(["", " ", "0:"])
+        # outside the model's domain (documented in Model/LV.lean): int() leniencies — a length prefix that starts with whitespace, a sign or '_'
+        if _lenient(txt):
+            continue
+        out.append([kind, txt])
+    return out
+
+
+def _lenient(txt):
+    t = txt.strip()
+    while t:
+        if ":" not in t:
+            return False
+        l, v = t.split(":", 1)
+        if not (l.isascii() and l.isdigit()):
+            # Python's int() would still read ' 3', '+3', '-3', '1_0', non-ASCII digits
+            try:
+                int(l)
+                return True
+            except ValueError:
+                return False
+        t = v[int(l):]
+    return False
+
+
+def impl_handler(c):
+    import opbase
+    from idpyoidc.server.token import ALT_TOKEN_NAME
+    from idpyoidc.server.token.exception import TokenException
+    from cryptojwt.exception import Invalid
+    from cryptojwt.jwe.fernet import FernetEncrypter
+    rng = random.Random(c["seed"])
+    short = {"authorization_code": "code", "access_token": "token", "refresh_token": "refresh"}
+    keyid = {k: (0 if c["shared"] else i) for i, k in enumerate(HNAMES)}
+    tha = {short[k]: {"lifetime": 600, "kwargs": {"crypt_conf": {"kwargs": {"key": (b"%d" % keyid[k]) * 32}}}} for k in HNAMES}
+    tha["id_token"] = {"class": "idpyoidc.server.token.id_token.IDToken", "kwargs": {}}
+    s = opbase.make_op(extra={"token_handler_args": tha})
+    sm = s.context.session_manager
+    th = sm.token_handler
+    # the layer ends where the session lookup begins: what get_session_info_by_token hands on is observed, not looked up
+    sm.get_session_info = lambda sid, **kw: {"sid": sid}
+    sm._compatible_sid = lambda sid: sid
+    foreign = FernetEncrypter(key=b"9" * 32)
+    order = [k for k in th.handler_order if k in HNAMES]
+    hs = [[k, ALT_TOKEN_NAME.get(k, ""), keyid[k]] for k in order]
+    probes = []
+    def outcome(f):
+        try:
+            r = f()
+        except (KeyError, TokenException, Invalid, AttributeError) as e:
+            return ["skip"]
+        except Exception as e:
+            return ["raise"]
+        return r
+    # genuine tokens first: minted by the handler itself
+    clock = prov.clock
+    for k in HNAMES:
+        for sid in ("sid-1", "u;;c;;g"):
+            tok = th.handler[k](session_id=sid)
+            plain = th.handler[k].crypt.decrypt(base64.b64decode(tok)).decode()
+            probes.append(["genuine", k, keyid[k], plain, tok])
+    for kind, txt in _plaintexts(rng, c["n"], ALT_TOKEN_NAME):
+        who = rng.choice(HNAMES + ["foreign"])
+        crypt = foreign if who == "foreign" else th.handler[who].crypt
+        tok = base64.b64encode(crypt.encrypt(txt.encode())).decode()
+        probes.append([kind, who, 9 if who == "foreign" else keyid[who], txt, tok])
+    res = []
+    for kind, who, tkey, plain, tok in probes:
+        infos = []
+        for k in order:
+            def f(k=k):
+                i = th.handler[k].info(tok)
+                return ["ok", i.get("_id"), i.get("token_class"), i.get("sid"), i.get("exp")]
+            infos.append(outcome(f))
+        def g():
+            h, i = th.get_handler(tok)
+            if h is None:
+                return ["none"]
+            return ["found", h.token_class, i.get("_id"), i.get("token_class"), i.get("sid"), i.get("exp")]
+        got = outcome(g)
+        hk = rng.choice([None] + HNAMES)
+        def sidf():
+            return ["sid", sm.get_session_info_by_token(tok, handler_key=hk or "")["sid"]]
+        try:
+            sid = sidf()
+        except Exception:
+            sid = ["refused"]
+        res.append({"kind": kind, "by": who, "tkey": tkey, "plain": plain, "hk": hk, "infos": infos, "get": got, "sid": sid})
+    STATS["handler_probes"] = STATS.get("handler_probes", 0) + len(res)
+    for r in res:
+        STATS["by_kind"]["handler:" + r["kind"]] = STATS["by_kind"].get("handler:" + r["kind"], 0) + 1
+    return {"hs": hs, "res": res}
+
+
+def _opt(x):
+    return "none" if x is None else "some:" + enc_str(x)
+
+
+def model_lines_handler(c, obs):
+    US = "\x1f"
+    hs = enc_list([US.join([n, a, str(k)]) for n, a, k in obs["hs"]])
+    return ["\t".join(["res", "handler", hs, "none" if r["hk"] is None else enc_str(r["hk"]), enc_str(str(r["tkey"])), enc_str(r["plain"])]) for r in obs["res"]]
+
+
+def compare_handler(c, obs, outs):
+    d = []
+    for r, o in zip(obs["res"], outs):
+        def show(i):
+            return "ok " + " ".join([enc_str(i[1]), enc_str(i[2]), _opt(i[3]), _opt(i[4])])
+        infos = "|".join(show(i) if i[0] == "ok" else i[0] for i in r["infos"])
+        g = r["get"]
+        get = g[0] if g[0] in ("none", "raise") else ("raise" if g[0] == "skip" else enc_str(g[1]) + " ok " + " ".join([enc_str(g[2]), enc_str(g[3]), _opt(g[4]), _opt(g[5])]))
+        sid = "none" if r["sid"][0] == "refused" else "some:" + enc_str(r["sid"][1])
+        want = infos + " get=" + get + " sid=" + sid
+        if want != o:
+            d.append(f"handler layer, {r['kind']} plaintext {r['plain'][:60]!r} encrypted by {r['by']}, handler_key {r['hk']}: implementation {want} / model {o}")
+            if len(d) > 2:
+                break
+    return d
+
+
+def oracle_handler(c, obs):
+    v = []
+    tags = {n: {n, a} for n, a, k in obs["hs"]}
+    keyof = {n: k for n, a, k in obs["hs"]}
+    def fields(plain):
+        # the reference reading of a WELL-FORMED text (every length right); None otherwise
+        t, out = plain.strip(), []
+        while t:
+            l, _, v2 = t.partition(":")
+            if not (l.isascii() and l.isdigit()) or len(v2) < int(l):
+                return None
+            out.append(v2[: int(l)]); t = v2[int(l):]
+        return out
+    for r in obs["res"]:
+        f = fields(r["plain"])
+        for (n, a, k), i in zip(obs["hs"], r["infos"]):
+            if i[0] == "ok":
+                if r["tkey"] != k:
+                    v.append({"cls": "handler-accepts-text-under-another-key", "handler": n}); break
+                if f is not None and (len(f) < 2 or f[1] not in tags[n]):
+                    v.append({"cls": "handler-accepts-foreign-class-tag", "handler": n, "tag": f[1] if len(f) > 1 else None}); break
+        if r["kind"] == "genuine":
+            own = r["by"]
+            if r["get"][0] != "found" or r["get"][1] != own:
+                v.append({"cls": "genuine-token-not-resolved-by-own-handler", "handler": own, "got": r["get"][:2]})
+            if r["hk"] not in (None, own) and r["sid"][0] == "sid":
+                v.append({"cls": "wrong-class-resolved-by-session-manager", "slot": r["hk"], "token_class": own})
+            if r["hk"] in (None, own) and r["sid"][0] != "sid":
+                v.append({"cls": "genuine-token-refused-by-session-manager", "slot": r["hk"], "token_class": own})
+        if r["sid"][0] == "sid" and r["hk"] and f is not None and (len(f) < 3 or f[1] not in tags[r["hk"]] or r["tkey"] != keyof[r["hk"]]):
+            v.append({"cls": "wrong-class-resolved-by-session-manager", "slot": r["hk"], "tag": f[1] if len(f) > 1 else None})
+    return v[:3]
 
 
 def opbase_cliauth():
@@ -104,6 +296,8 @@ def _probe(R, slot, s):
 
 
 def impl(c):
+    if c.get("t") == "handler":
+        return impl_handler(c)
     rng = random.Random(c["seed"])
     from idpyoidc.server.oauth2.token_revocation import TokenRevocation
     # the revocation endpoint also accepts an access token as the client's credential (bearer_header)
@@ -195,6 +389,8 @@ def impl(c):
 
 
 def model_lines(c, obs):
+    if c.get("t") == "handler":
+        return model_lines_handler(c, obs)
     US = "\x1f"
     minted = enc_list([US.join([m[0], m[1], str(m[2]), "1" if m[3] else "0"]) for m in obs["minted"]])
     return (["\t".join(["res", "honour", slot, enc_str(s), minted]) for slot, s, kind, r in obs["results"]] +
@@ -202,6 +398,8 @@ def model_lines(c, obs):
 
 
 def compare(c, obs, outs):
+    if c.get("t") == "handler":
+        return compare_handler(c, obs, outs)
     d = []
     for (slot, s, kind, r), o in zip(obs["results"], outs):
         m = o.startswith("honoured")
@@ -223,6 +421,8 @@ def compare(c, obs, outs):
 
 
 def oracle(c, obs):
+    if c.get("t") == "handler":
+        return oracle_handler(c, obs)
     v = []
     acc = {"tokenCode": {"code"}, "userinfo": {"access"}, "refreshGrant": {"refresh"}, "introspect": {"access", "refresh"}, "revoke": {"code", "access", "refresh"},
            "bearerAuth": {"access"}}
@@ -260,6 +460,8 @@ def known_key(c, v, known):
 
 
 def classify(c, obs):
+    if c.get("t") == "handler":
+        return "handler-layer:" + ("one-key" if c["shared"] else "key-per-class")
     return ("jwt-one-spec" if c["jwt"] == "shared" else "jwt" if c["jwt"] else "opaque") + ":" + ("oidc" if c["oidc"] else "oauth2")
 
 
